@@ -25,6 +25,7 @@ func c09(c *Ctx) {
 	c09R4(c)
 	publishOrderRule(c, "R5")
 	c09R6(c)
+	shared(c, "C05", c05R2)
 }
 
 // R6: the execution core the application calls into is the reference's.
